@@ -47,6 +47,8 @@ def items(tier):
         out.append({"name": "fastpath|h%d|%s|din%d|dout%d" % (hid, act, din, dout), "kind": "fast", "hid": hid, "act": act,
                     "din": din, "dout": dout, "tier": tier, "cost": 3})
     out.append({"name": "histories", "kind": "hist", "tier": tier, "cost": 5})
+    for copied in (True, False):
+        out.append({"name": "trunk-variable-order|copied=%s" % copied, "kind": "trunkorder", "copied": copied, "tier": tier, "cost": 2})
     return out
 
 
@@ -115,6 +117,46 @@ def run_item(item):
         seen.add(key)
         res["violations"].append({"key": key, "what": "%s: %s" % (item["name"], what), "detail": {"item": item["name"]}})
     tier = item["tier"]
+    if item["kind"] == "trunkorder":
+        # a trunk over TWO named variables (x, y): locations whose columns are stored as (y, x) give the same output
+        copied = item["copied"]
+        for act, dout in itertools.product(("tanh", "mixed"), (1, 2)):
+            torch.manual_seed(21)
+            a_ = acts_of(act, [3, 3])
+            fs = FunctionSpace(Interval(Space({"t": 1}), 0, 1), Space({"e": 1}))
+            sampler = GridSampler(fs.input_domain, K).make_static()
+            trunk = FCTrunkNet(Space({"x": 1, "y": 1}), hidden=(3, 3), activations=a_, trunk_input_copied=copied)
+            branch = FCBranchNet(fs, discretization_sampler=sampler, hidden=(3, 3), activations=a_)
+            net = DeepONet(trunk, branch, output_space=Space({"u": dout}), output_neurons=2 * dout)
+            tgrid = sampler.sample_points().as_tensor[:, 0]
+            for F in (1, 2):
+                vals = fn_values(list(np.linspace(0, 1, F + 2)[1:-1]), tgrid)
+                x0 = locations(3, 2)
+                for xform in ("2d", "3d-rep"):
+                    x = x0 if xform == "2d" else x0.unsqueeze(0).repeat(F, 1, 1)
+                    cfg = "%s dout=%d F=%d trunk_input=%s" % (act, dout, F, xform)
+                    res["states"].append(item["name"] + "|" + cfg)
+                    res["evals"] += 2
+                    res["transitions"] += 2
+                    try:
+                        with torch.no_grad():
+                            o1 = net(Points(x.clone(), Space({"x": 1, "y": 1})), vals.clone()).as_tensor
+                            o2 = net(Points(torch.flip(x, dims=(-1,)).clone(), Space({"y": 1, "x": 1})), vals.clone()).as_tensor
+                    except Exception as e:
+                        viol("C09|error|%s|trunk-variable-order" % type(e).__name__, "%s raised %s: %s" % (cfg, type(e).__name__, str(e)[:120]))
+                        continue
+                    with torch.no_grad():
+                        B = seq_ref(net.branch.sequential, vals.reshape(F, K), a_).reshape(F, dout, 2)
+                        Tt = seq_ref(net.trunk.sequential, x0, a_).reshape(3, dout, 2)
+                        exp = torch.einsum("icn,jcn->ijc", B, Tt)
+                    if o1.shape != exp.shape or not torch.allclose(o1, exp, rtol=1e-5, atol=1e-6):
+                        viol("C09|inner-product|two-variable-trunk", "%s: output differs from the inner product (declared variable order)" % cfg)
+                    elif o2.shape != o1.shape or not torch.allclose(o1, o2, rtol=1e-6, atol=1e-7):
+                        viol("C09|trunk-variable-order", "%s: the locations stored as (y, x) give another output than stored as (x, y) (max difference %.3g)" % (
+                            cfg, float((o1 - o2).abs().max()) if o2.shape == o1.shape else float("nan")))
+                    else:
+                        res["outcomes"].append(item["name"] + "|" + cfg)
+        return res
     if item["kind"] == "inner":
         hidden = BOUNDS[tier]["hidden"][item["hid"]]
         din, dout, npd, copied = item["din"], item["dout"], item["npd"], item["copied"]
